@@ -6,12 +6,17 @@
 (* (PropRecompute / PropChain on the history consumed so far).             *)
 (*                                                                         *)
 (* File (JSON): [mode |-> "plan" | "validate", episodes |-> <<...>>]       *)
-(* episode: [ep, k, events, interp]                                        *)
-(*   event : [t |-> "call"|"reset", sym, solves, exc, oid, norm_ok]        *)
+(* episode: [ep, k, niter, events, interp]                                 *)
+(*   event : [t |-> "call"|"reset", sym, solves, exc, oid, wid, norm_ok]   *)
 (*           sym    matrix identifier (string)                              *)
 (*           solves number of cvxpy Problem.solve invocations of the call  *)
 (*           exc    "none" or the exception type                           *)
 (*           oid    identifier of the observed output vector               *)
+(*           wid    identifier of the observed weights (the vector returned *)
+(*                  by the weighting, up to the max_norm rescaling: two    *)
+(*                  calls get the same identifier iff the later one applies *)
+(*                  the weights of the earlier one, rescaled against its    *)
+(*                  own matrix)                                             *)
 (*           norm_ok  |out| <= max_norm (with the derived allowance)       *)
 (*   interp: sequence of [chain, sym, oid]: the interpretation, obtained   *)
 (*           from FRESH real instances, of the term clip(Solve-chain).J_sym *)
@@ -29,16 +34,16 @@ Episodes == TFile.episodes
 NEp      == Len(Episodes)
 
 VARIABLES ep, pos, stage, nAcc, nRej, nCalls
-tvars == <<k, hist, inst, fresh, calls, ep, pos, stage, nAcc, nRej, nCalls>>
+tvars == <<k, niter, hist, inst, fresh, calls, ep, pos, stage, nAcc, nRej, nCalls>>
 
 E  == Episodes[ep]
 Ev == E.events[pos]
 
-TInit == /\ k = 1 /\ hist = <<>> /\ inst = NewInst /\ fresh = NewInst /\ calls = <<>>
+TInit == /\ k = 1 /\ niter = 20 /\ hist = <<>> /\ inst = NewInst /\ fresh = NewInst /\ calls = <<>>
          /\ ep = 1 /\ pos = 1 /\ stage = "load" /\ nAcc = 0 /\ nRej = 0 /\ nCalls = 0
 
 Load == /\ ep <= NEp /\ stage = "load"
-        /\ k' = E.k /\ hist' = <<>> /\ inst' = NewInst /\ fresh' = NewInst /\ calls' = <<>>
+        /\ k' = E.k /\ niter' = E.niter /\ hist' = <<>> /\ inst' = NewInst /\ fresh' = NewInst /\ calls' = <<>>
         /\ pos' = 1 /\ stage' = "events"
         /\ UNCHANGED <<ep, nAcc, nRej, nCalls>>
 
@@ -49,12 +54,15 @@ NextEp(ok) == /\ ep' = ep + 1 /\ stage' = "load" /\ pos' = 1
 HPlus(J)      == Append(hist, J)
 WantRe(J)     == PropRecompute(HPlus(J), k, Len(hist) + 1)
 WantChain(J)  == PropChain(HPlus(J), k, Len(hist) + 1)
+WantRef(J)    == PropRef(HPlus(J), k, Len(hist) + 1)      \* the call that opened the period
 Interp(J)     == {i \in DOMAIN E.interp : E.interp[i].chain = WantChain(J) /\ E.interp[i].sym = J}
 
 Clause(J) ==
     IF Ev.exc # "none" THEN "call_raised"
     ELSE IF WantRe(J) /\ Ev.solves = 0 THEN "scheduled_recompute_did_not_solve"
     ELSE IF ~WantRe(J) /\ Ev.solves > 0 THEN "solver_invoked_on_a_reuse_call"
+    ELSE IF ~WantRe(J) /\ Ev.wid # E.events[WantRef(J)].wid
+         THEN "reuse_call_did_not_apply_the_weights_of_the_recompute_call_of_its_period"
     ELSE IF Interp(J) = {} THEN "MISSING"
     ELSE IF \E i \in Interp(J) : E.interp[i].oid # Ev.oid THEN "output_is_not_clip_of_scheduled_weights_times_matrix"
     ELSE IF ~Ev.norm_ok THEN "norm_exceeds_max_norm"
@@ -62,25 +70,29 @@ Clause(J) ==
 
 \* the implementation layer must agree with the property layer on the consumed history
 \* (proved by the model check; re-checked here on the longer recorded histories)
-LayersAgree(J) == LET ni == CallInst(inst, k, J) IN
+LayersAgree(J) == LET ni == CallInst(inst, k, niter, J) IN
                   /\ CallSucceeds(inst, k)
                   /\ Recomputes(inst.step, k) = WantRe(J)
                   /\ Chain(ni.alpha) = WantChain(J)
+                  /\ AllNiter(ni.alpha, niter)
+                  /\ (IF Recomputes(inst.step, k) THEN Len(hist) + 1 ELSE calls[Len(calls)].ref) = WantRef(J)
 
 TCall == /\ ep <= NEp /\ stage = "events" /\ pos <= Len(E.events) /\ Ev.t = "call"
          /\ (~LayersAgree(Ev.sym) => PrintT(<<"MODELGAP", ToJson([ep |-> E.ep, at |-> pos])>>))
          /\ IF Mode = "plan"
             THEN /\ PrintT(<<"NEED", ToJson([ep |-> E.ep, at |-> pos, sym |-> Ev.sym,
-                                             recompute |-> WantRe(Ev.sym), chain |-> WantChain(Ev.sym)])>>)
+                                             recompute |-> WantRe(Ev.sym), ref |-> WantRef(Ev.sym),
+                                             chain |-> WantChain(Ev.sym)])>>)
                  /\ Call(Ev.sym) /\ pos' = pos + 1 /\ nCalls' = nCalls + 1
                  /\ UNCHANGED <<ep, stage, nAcc, nRej>>
             ELSE IF Clause(Ev.sym) = "none"
             THEN /\ Call(Ev.sym) /\ pos' = pos + 1 /\ nCalls' = nCalls + 1
                  /\ UNCHANGED <<ep, stage, nAcc, nRej>>
             ELSE /\ PrintT(<<"REJECT", ToJson([ep |-> E.ep, at |-> pos, clause |-> Clause(Ev.sym),
-                                               recompute |-> WantRe(Ev.sym), chain |-> WantChain(Ev.sym)])>>)
+                                               recompute |-> WantRe(Ev.sym), ref |-> WantRef(Ev.sym),
+                                               chain |-> WantChain(Ev.sym)])>>)
                  /\ NextEp(FALSE)
-                 /\ UNCHANGED <<k, hist, inst, fresh, calls, nCalls>>
+                 /\ UNCHANGED <<k, niter, hist, inst, fresh, calls, nCalls>>
 
 TReset == /\ ep <= NEp /\ stage = "events" /\ pos <= Len(E.events) /\ Ev.t = "reset"
           /\ Reset /\ pos' = pos + 1
@@ -88,13 +100,13 @@ TReset == /\ ep <= NEp /\ stage = "events" /\ pos <= Len(E.events) /\ Ev.t = "re
 
 TFinish == /\ ep <= NEp /\ stage = "events" /\ pos = Len(E.events) + 1
            /\ NextEp(TRUE)
-           /\ UNCHANGED <<k, hist, inst, fresh, calls, nCalls>>
+           /\ UNCHANGED <<k, niter, hist, inst, fresh, calls, nCalls>>
 
 TDone == /\ ep = NEp + 1 /\ stage = "load"
          /\ PrintT(<<"SUMMARY", ToJson([episodes |-> NEp, accepted |-> nAcc, rejected |-> nRej,
                                          calls |-> nCalls, mode |-> Mode])>>)
          /\ stage' = "end"
-         /\ UNCHANGED <<k, hist, inst, fresh, calls, ep, pos, nAcc, nRej, nCalls>>
+         /\ UNCHANGED <<k, niter, hist, inst, fresh, calls, ep, pos, nAcc, nRej, nCalls>>
 
 TNext == Load \/ TCall \/ TReset \/ TFinish \/ TDone
 TraceSpec == TInit /\ [][TNext]_tvars
